@@ -1,9 +1,10 @@
 import NetqasmVerif.Driver.Codec
 import NetqasmVerif.Driver.Reject
 import NetqasmVerif.Driver.Msg
+import NetqasmVerif.Driver.Text
 open Lean NQ.Drv
 
-def handlers : List (String → Json → Option Json) := [handleCodec, handleReject, handleMsg]
+def handlers : List (String → Json → Option Json) := [handleCodec, handleReject, handleMsg, handleText]
 
 def dispatch (j : Json) : Json :=
   match (jField? j "op").bind jStr? with
